@@ -20,7 +20,8 @@ UNDECIDED = ['TLS library behaviour', 'server behaviour at run time']
 ASSUMPTIONS = []
 CONFIGS = ['default', 'rustls']
 QUICK_CONFIGS = ['default', 'rustls']      # the two TLS back ends are sibling implementations of the same clauses, selected by cfg: a change can be visible in only one of them
-SHARED = [('C04', ('L7.',), 'W6.transport'), ('C18', ('U6.',), 'W9.request-survives-later-builder-calls')]      # what is written to a ConnType::Tls goes to the TLS stream, not to another variant's socket, method by method; W9 "under all combinations of scheme, StartTLS and verification settings": set_starttls(true) / the verification setting / the caller's connector are still what connection setup sees after any later builder call - a builder method that rebuilds the settings from defaults turns a requested StartTLS off without a word
+SHARED = [('C04', ('L7.',), 'W6.transport'), ('C18', ('U6.',), 'W9.request-survives-later-builder-calls'),
+          ('C03', ('T1.result-code',), 'W2.result-code-is-what-the-server-sent')]      # what is written to a ConnType::Tls goes to the TLS stream, not to another variant's socket, method by method; W9 "under all combinations of scheme, StartTLS and verification settings": set_starttls(true) / the verification setting / the caller's connector are still what connection setup sees after any later builder call - a builder method that rebuilds the settings from defaults turns a requested StartTLS off without a word; W2.result-code "establishment fails if the StartTLS response is not success ... answering garbage": the result code that `success()` tests (W2.success-means-rc-0: Ok exactly for 0) is the ENUMERATED the server put first into the response, decoded - on no path a default that stands in for an element that is missing, wrong-tagged or constructed, because the default of the code's type is 0 = success
 
 NT = 'ldap3::conn::LdapConnAsync::new_tcp'
 
@@ -238,6 +239,8 @@ def check_verification(ctx, f, R):
         rec = f.hir[p]
         if '{' in p or not any(nd['k'] == 'Struct' and (nd.get('ctor_of') or nd.get('def') or '') == R.ST for nd, _c in walk(rec['body'])):
             continue
+        if p == R.setter.get('verify-off'):
+            continue        # the setter itself, written as a struct-update (`Self { f: v, ..self }`): what it records is (a)'s question
         B = hirq.Body(f, f.body(p))
         ctx.analysed['bodies'].add(p)
         sparams = [('param', x) for x in sem.params_of_type(f, B, IS_SETTINGS)]
